@@ -111,7 +111,10 @@ def diagnose(pid: int, log_path: Path | None = None, samples: int = 5, span: flo
         active_reasons.append(f"threads used {cpu_total} clock ticks of cpu")
     verdict = "active" if active_reasons else "quiescent"
     stacks = ""
-    if log_path is not None:
+    # The stack dump (faulthandler on SIGUSR1) is only requested from a process diagnosed as quiescent: dumping
+    # all threads of a process that creates and destroys threads at full speed is best-effort in CPython and
+    # was seen to crash busy workers (C13, thousands of short-lived threads).
+    if log_path is not None and verdict == "quiescent":
         try:
             before = log_path.stat().st_size
             os.kill(pid, signal.SIGUSR1)
